@@ -472,7 +472,16 @@ def guard_rules(repo, rep):
                          expected='if <%s out of range>: raise ValueError' % lab, actual='no such guard before the computation')
         else:
             rep.holds('R-GUARD', key, where(f, found), 'guard: %s' % stmt_text(found.test)[:100])
-    rep.floor('R-GUARD', 4, 'zone, easting, northing, hemisphere')
+    # the same tests as predicates over the input box: none may fire inside, some must fire just outside
+    from .. import guards
+    ps = [p.name for p in f.params]
+    domain = {'zone': (0, 60), 'east': (-2830000, 3830000), 'north': (0, 10000000)}
+    evg = Evaluator(repo, opaque={'psfandgridconv', 'beta_coeff', 'alpha_coeff', 'rect_radius'})
+    evg.call_function(f, {ps[0]: Rat.sym('zone'), ps[1]: Rat.sym('east'), ps[2]: Rat.sym('north')})
+    guards.guard_rule(rep, 'R-GUARD', f, evg.raise_conds, domain, 'the accepted grid domain (zones 0..60, eastings -2 830 000..3 830 000 m, northings 0..10 000 000 m)',
+                      lambda nd: where(f, nd), integer=('zone',))
+    guards.rejects_outside(rep, 'R-GUARD', f, evg.raise_conds, domain, {'east': 1, 'north': 1, 'zone': 1}, lambda nd: where(f, nd), 'the accepted grid domain')
+    rep.floor('R-GUARD', 8, 'zone, easting, northing, hemisphere; raising tests as predicates; rejection outside')
     nw = find_newton(f)
     key = 'R-BOUND::geodepy/convert.py::grid2geo::newton'
     if nw is None:
@@ -529,6 +538,7 @@ def cm_sibling_rule(repo, rep, ctx):
 
 def run(repo, rep):
     alg.reset()
+    common.ellipsoid_rules(repo, rep, projections=True)
     rep.trust('sv/alg.py exact normal forms; generator independence modulo the rewrite rules applied')
     rep.trust('beta oracle = exact Lagrange reversion (sv/tables.py) of the Krueger alpha table; reference inverse equations: Karney (2011) / Deakin')
     rep.assume('float(x) == x, round(x, d) identity with granularity 10^-d, str.lower() on the hemisphere argument kept symbolic')
@@ -543,6 +553,8 @@ def run(repo, rep):
     tr.check_const(f)
     tr.check_const(repo.func('geodepy.convert', 'beta_coeff'))
     tr.check_function(f)
+    # the object wrapper named in the property's observe_at list hands its ellipsoid and projection on
+    ThreadRule(repo, rep).check_function(repo.func('geodepy.coord', 'CoordTM.geo'), roles=('ellipsoid', 'prj'))
     rep.floor('R-TABLE', 17, '8 library rows, 8 stand-alone rows, stand-alone rectifying radius')
 
 
